@@ -1,0 +1,156 @@
+//go:build verif
+
+// Copyright Istio Authors
+//
+// Licensed under the Apache License, Version 2.0 (the "License");
+// you may not use this file except in compliance with the License.
+// You may obtain a copy of the License at
+//
+//     http://www.apache.org/licenses/LICENSE-2.0
+//
+// Unless required by applicable law or agreed to in writing, software
+// distributed under the License is distributed on an "AS IS" BASIS,
+// WITHOUT WARRANTIES OR CONDITIONS OF ANY KIND, either express or implied.
+// See the License for the specific language governing permissions and
+// limitations under the License.
+
+package model
+
+import (
+	networking "istio.io/api/networking/v1alpha3"
+	"istio.io/istio/pkg/config"
+	"istio.io/istio/pkg/verif"
+)
+
+// ---------------------------------------------------------------------------------------------
+// C17: "Ties between objects of equal age are broken by a total, stable rule": every comparator
+// handed to a sort is a total preorder, and it ties only on objects with the same sort identity.
+// Each lemma calls the real comparator (function literals are named through verif.Closure).
+// ---------------------------------------------------------------------------------------------
+
+func sgn(x int) int {
+	if x < 0 {
+		return -1
+	}
+	if x > 0 {
+		return 1
+	}
+	return 0
+}
+
+// threeWay: the results of one comparator on the six ordered pairs of three values form a total
+// preorder (antisymmetry of the sign, transitivity, transitivity of ties).
+func threeWay(ab, ba, bc, cb, ac, ca int) bool {
+	return sgn(ab) == -sgn(ba) && sgn(bc) == -sgn(cb) && sgn(ac) == -sgn(ca) &&
+		(!(ab <= 0 && bc <= 0) || ac <= 0) &&
+		(!(ab < 0 && bc <= 0) || ac < 0) &&
+		(!(ab <= 0 && bc < 0) || ac < 0) &&
+		(!(ab == 0 && bc == 0) || ac == 0)
+}
+
+//verif:lemma
+//verif:prop C17
+func lemmaConfigCompareByCreationTime(a, b, c config.Config) {
+	ab, ba := configCompareByCreationTime(a, b), configCompareByCreationTime(b, a)
+	bc, cb := configCompareByCreationTime(b, c), configCompareByCreationTime(c, b)
+	ac, ca := configCompareByCreationTime(a, c), configCompareByCreationTime(c, a)
+	verif.Assert("total-preorder", threeWay(ab, ba, bc, cb, ac, ca))
+	verif.Assert("reflexive", configCompareByCreationTime(a, a) == 0)
+	// configs of one kind are identified by (namespace, name)
+	verif.Assert("ties-only-on-same-identity", ab != 0 || (a.Name == b.Name && a.Namespace == b.Namespace))
+}
+
+//verif:lemma
+//verif:prop C17
+func lemmaSortServicesByCreationTime(a, b, c *Service) {
+	verif.Requires("services-present", a != nil && b != nil && c != nil)
+	cmp := verif.Closure0[func(i, j *Service) int]("SortServicesByCreationTime$1")
+	verif.Assert("total-preorder", threeWay(cmp(a, b), cmp(b, a), cmp(b, c), cmp(c, b), cmp(a, c), cmp(c, a)))
+	verif.Assert("reflexive", cmp(a, a) == 0)
+	// from the code: ties are broken on (name, namespace) of the originating object, and the sort is stable
+	verif.Assert("ties-only-on-same-name-and-namespace", cmp(a, b) != 0 ||
+		(a.Attributes.Name == b.Attributes.Name && a.Attributes.Namespace == b.Attributes.Namespace))
+}
+
+//verif:lemma
+//verif:prop C17
+func lemmaSortEnvoyFilters(a, b, c *EnvoyFilterWrapper) {
+	verif.Requires("filters-present", a != nil && b != nil && c != nil)
+	cmp := verif.Closure0[func(a, b *EnvoyFilterWrapper) int]("sortEnvoyFilters$1")
+	verif.Assert("total-preorder", threeWay(cmp(a, b), cmp(b, a), cmp(b, c), cmp(c, b), cmp(a, c), cmp(c, a)))
+	verif.Assert("reflexive", cmp(a, a) == 0)
+	// sortEnvoyFilters is called per namespace: within a namespace the name identifies the filter
+	verif.Assert("ties-only-on-same-name", cmp(a, b) != 0 || a.Name == b.Name)
+}
+
+//verif:lemma
+//verif:prop C17
+func lemmaAliasSort(a, b, c NamespacedHostname) {
+	cmp := verif.Closure0[func(a, b NamespacedHostname) int]("resolveServiceAliases$1")
+	verif.Assert("total-preorder", threeWay(cmp(a, b), cmp(b, a), cmp(b, c), cmp(c, b), cmp(a, c), cmp(c, a)))
+	verif.Assert("ties-only-on-equal-values", cmp(a, b) != 0 || a == b)
+}
+
+//verif:lemma
+//verif:prop C17
+func lemmaShardKeyOrder(keys []ShardKey, i, j, k int) {
+	verif.Requires("indices-in-range", 0 <= i && i < len(keys) && 0 <= j && j < len(keys) && 0 <= k && k < len(keys))
+	less := verif.Closure1[func(i, j int) bool]("(*EndpointShards).Keys$1", keys)
+	verif.Assert("irreflexive", !less(i, i))
+	verif.Assert("asymmetric", !(less(i, j) && less(j, i)))
+	verif.Assert("transitive", !(less(i, j) && less(j, k)) || less(i, k))
+	verif.Assert("incomparability-transitive", less(i, j) || less(j, i) || less(j, k) || less(k, j) || (!less(i, k) && !less(k, i)))
+	// shard keys are map keys: distinct keys are never tied, so sort.Slice (not stable) is deterministic
+	verif.Assert("ties-only-on-equal-keys", less(i, j) || less(j, i) || keys[i] == keys[j])
+}
+
+//verif:lemma
+//verif:prop C17
+func lemmaSortConfigBySelectorAndCreationTime(a, b, c config.Config) {
+	// sort site precondition (setDestinationRules): every config handed over is a DestinationRule
+	_, oka := a.Spec.(*networking.DestinationRule)
+	_, okb := b.Spec.(*networking.DestinationRule)
+	_, okc := c.Spec.(*networking.DestinationRule)
+	verif.Requires("specs-are-destination-rules", oka && okb && okc)
+	cmp := verif.Closure0[func(a, b config.Config) int]("sortConfigBySelectorAndCreationTime$1")
+	verif.Assert("total-preorder", threeWay(cmp(a, b), cmp(b, a), cmp(b, c), cmp(c, b), cmp(a, c), cmp(c, a)))
+	verif.Assert("reflexive", cmp(a, a) == 0)
+	verif.Assert("ties-only-on-same-identity", cmp(a, b) != 0 || (a.Name == b.Name && a.Namespace == b.Namespace))
+}
+
+//verif:lemma
+//verif:prop C17
+func lemmaSortByPriority(slice []*TrafficExtensionWrapper, i, j, k int) {
+	verif.Requires("indices-in-range", 0 <= i && i < len(slice) && 0 <= j && j < len(slice) && 0 <= k && k < len(slice))
+	// sort site precondition: wrappers come from convertToTrafficExtensionWrapper, which always sets the extension
+	verif.Requires("wrappers-present", slice[i] != nil && slice[j] != nil && slice[k] != nil &&
+		slice[i].TrafficExtension != nil && slice[j].TrafficExtension != nil && slice[k].TrafficExtension != nil)
+	less := verif.Closure1[func(i, j int) bool]("sortByPriority$1", slice)
+	// a strict weak order; the sort is stable, so ties keep the (creation-time sorted) input order
+	verif.Assert("irreflexive", !less(i, i))
+	verif.Assert("asymmetric", !(less(i, j) && less(j, i)))
+	verif.Assert("transitive", !(less(i, j) && less(j, k)) || less(i, k))
+	verif.Assert("incomparability-transitive", less(i, j) || less(j, i) || less(j, k) || less(k, j) || (!less(i, k) && !less(k, i)))
+}
+
+//verif:lemma
+//verif:prop C17
+func lemmaEnvoyFiltersMergeOrder(ps *PushContext, matched []*EnvoyFilterWrapper, i, j, k int) {
+	verif.Requires("indices-in-range", 0 <= i && i < len(matched) && 0 <= j && j < len(matched) && 0 <= k && k < len(matched))
+	verif.Requires("wrappers-present", ps != nil && ps.Mesh != nil && matched[i] != nil && matched[j] != nil && matched[k] != nil)
+	// creation times come from object metadata in one canonical representation (UTC, no monotonic
+	// reading): two of them denoting the same instant are the same value
+	verif.Assume("creation times are canonical: same instant implies same representation",
+		(!matched[i].creationTime.Equal(matched[j].creationTime) || matched[i].creationTime == matched[j].creationTime) &&
+			(!matched[j].creationTime.Equal(matched[k].creationTime) || matched[j].creationTime == matched[k].creationTime) &&
+			(!matched[i].creationTime.Equal(matched[k].creationTime) || matched[i].creationTime == matched[k].creationTime))
+	less := verif.Closure2[func(i, j int) bool]("(*PushContext).EnvoyFilters$1", matched, ps)
+	verif.Assert("irreflexive", !less(i, i))
+	verif.Assert("asymmetric", !(less(i, j) && less(j, i)))
+	verif.Assert("transitive", !(less(i, j) && less(j, k)) || less(i, k))
+	verif.Assert("incomparability-transitive", less(i, j) || less(j, i) || less(j, k) || less(k, j) || (!less(i, k) && !less(k, i)))
+	// sort.Slice is not stable: ties must be between filters with the same "name.namespace" (which
+	// identifies a filter because namespaces contain no dot - not decided here)
+	verif.Assert("ties-only-on-same-qualified-name", less(i, j) || less(j, i) ||
+		matched[i].Name+"."+matched[i].Namespace == matched[j].Name+"."+matched[j].Namespace)
+}
